@@ -36,6 +36,7 @@ type Prog struct {
 	Containers bool // lists, maps, index paths, slices, aliasing
 	Probes     bool // p(...) after every statement
 	AddKey     bool // add_key(o1|o2, expr) / add_key(var) snapshots into the point
+	Multi      bool // v2: multi() calls in multi-assignments
 	Boom       bool // boom() may appear as a statement
 	ExitCalls  bool // exit() may appear as a statement
 	UseTargets []string
@@ -426,6 +427,36 @@ func (g *Prog) simple(d int) *gt.T {
 		}
 		fallthrough
 	case 7:
+		if g.V2 && g.Multi && r.Intn(3) == 0 {
+			// multi-value calls spread over several targets, alone and mixed
+			// with further right-hand expressions
+			names := []string{}
+			for _, n := range g.Names {
+				if !g.protected[n] {
+					names = append(names, n)
+				}
+			}
+			if len(names) >= 4 {
+				r.Shuffle(len(names), func(i, j int) { names[i], names[j] = names[j], names[i] })
+				var lhs, rhs []*gt.T
+				switch r.Intn(5) {
+				case 0:
+					lhs, rhs = idents(names[:2]), []*gt.T{gt.Call("multi")}
+				case 1:
+					lhs, rhs = idents(names[:3]), []*gt.T{gt.Call("multi"), g.Expr(TyInt, d-1)}
+				case 2:
+					lhs, rhs = idents(names[:3]), []*gt.T{g.Expr(TyStr, d-1), gt.Call("multi")}
+				case 3:
+					lhs, rhs = idents(names[:4]), []*gt.T{gt.Call("multi"), gt.Call("multi")}
+				default:
+					lhs, rhs = idents(names[:4]), []*gt.T{gt.Call("multi"), g.Expr(TyInt, d-1), g.T(g.Expr(TyStr, 0))}
+				}
+				for _, l := range lhs {
+					g.define(l.S, TyAny)
+				}
+				return gt.MultiAssign(lhs, rhs)
+			}
+		}
 		if g.V2 && r.Intn(2) == 0 {
 			// multi-assignment / swap
 			a, b := g.assignable(), g.assignable()
@@ -769,4 +800,12 @@ func SliceObjOK(e *gt.T) bool {
 		return gt.Prec(e) >= 8
 	}
 	return false
+}
+
+func idents(names []string) []*gt.T {
+	out := make([]*gt.T, len(names))
+	for i, n := range names {
+		out[i] = gt.Ident(n)
+	}
+	return out
 }
